@@ -1,7 +1,7 @@
 """C03 - phase equilibrium never creates, destroys or makes negative any material."""
 import random
 
-from harness import core, par, tlc
+from harness import core, par, replayjob, tlc
 from harness.drivers import phaseeq as dp
 
 ASSUME = [
@@ -45,7 +45,7 @@ def history(seed, k, n_steps):
             steps.append(dict(op='shuffle', a=dict(x=0), post=w.project(), obs=dict(exc='none', msg='')))
             continue
         steps.append(dict(op=op, a=a, post=post, obs=obs))
-    return dict(id='Q%d' % k, mode='seq', init=init, steps=steps)
+    return dict(id='Q%d' % k, mode='seq', init=init, steps=steps, job=[seed, k, n_steps])
 
 
 def run(ctx):
@@ -60,6 +60,7 @@ def run(ctx):
     traces = par.pmap(history, [('%d:%d' % (ctx.seed, k), k, 8) for k in range(160 if quick else 4000)])
     defs, cfgc = dp.tla_constants()
     stats = dict(ok=0, raised=0, ops={})
+    jobs_of = {t['id']: t.pop('job') for t in traces}
     todo, n_traces = traces, 0
     cases = []
     while todo:
@@ -86,7 +87,7 @@ def run(ctx):
                 s = t['steps'][x['l'] - 1]
                 pre = t['steps'][x['l'] - 2]['post'] if x['l'] > 1 else t['init']
                 ctx.violation(key_of(s, x['clause']), '%s %r: %s pre=%r post=%r' % (s['op'], s['a'], x['clause'], pre['tab'], s['post']['tab']),
-                              dict(kind='note', detail='history-dependent; re-run the check with the same seed', op=s['op'], a=s['a'], clause=x['clause']))
+                              dict(replayjob.job(history, jobs_of[t['id'].rstrip('c')], t['id']), clause=x['clause']))
                 if t['steps'][x['l']:]:
                     nxt.append(dict(id=t['id'] + 'c', mode='seq', init=s['post'], steps=t['steps'][x['l']:]))
         todo = nxt
@@ -104,6 +105,4 @@ def run(ctx):
 
 
 def replay(ctx, data):
-    print('# C03 violations depend on randomly generated streams; re-run ./check C03 with the recorded seed')
-    print(data.get('what', ''))
-    return 1
+    return replayjob.run('C03', data, dict(history=history), 'PhaseEq', dp.tla_constants())
